@@ -928,8 +928,55 @@ def run_info(ctx, tier, seed):
 
 # --------------------------------------------------------------------------- shards
 
+def run_sequences(ctx, tier, seed):
+    """operation sequences on the SAME objects (added after a seeded change that accumulated A + B into A): every later
+    result must be what the reference computes from the values the objects were built with"""
+    import spatialmath as sm
+    def inertia(m, c, d):
+        return sm.SpatialInertia(m, c, np.diag(d))
+    specs = [(2.0, [0.1, 0.2, 0.3], [1.0, 2.0, 3.0]), (0.5, [-0.3, 0.0, 0.2], [0.4, 0.5, 0.6]), (3.0, [0.0, 0.0, 0.0], [2.0, 2.0, 1.0]), (1e-3, [1.0, -1.0, 0.5], [1e-3, 2e-3, 1e-3])]
+    a = np.array([1.0, -2.0, 0.5, 0.3, 0.2, -0.1])
+    for i, j, k in itertools.permutations(range(len(specs)), 3):
+        cid = 'C20/seq/%d.%d.%d' % (i, j, k)
+        if not ctx.want(cid):
+            continue
+        ctx.case(cid, key=cid)
+        P = dict(op='sequence', lcls='SpatialInertia', rcls='SpatialInertia', i=i, j=j, k=k)
+        A, B, C = inertia(*specs[i]), inertia(*specs[j]), inertia(*specs[k])
+        MA, MB, MC = A.A.copy(), B.A.copy(), C.A.copy()
+        ok, r = call(lambda: ((A + B).A.copy(), (A + C).A.copy(), (A + B).A.copy(), (A * sm.SpatialAcceleration(a.copy())).A.copy(), (B + A).A.copy(), A.A.copy()))
+        if not ok:
+            ctx.fail(cid, 'SpatialInertia.__add__', 'raises:' + type(r).__name__, P, '%r' % (r,))
+            continue
+        want = (MA + MB, MA + MC, MA + MB, MA @ a, MB + MA, MA)
+        names = ('A+B', 'A+C after A+B', 'A+B again', 'A*a after the sums', 'B+A', 'A itself')
+        for got, w, nm in zip(r, want, names):
+            sc = max(1.0, float(np.abs(w).max()))
+            if np.abs(np.asarray(got) - w).max() > 1e-9 * sc:
+                ctx.fail(cid, 'SpatialInertia.__add__', 'mismatch', dict(P, what=nm), '%s differs from the reference by %.3g' % (nm, np.abs(np.asarray(got) - w).max()))
+                break
+    # vectors: sums and differences re-using the operands
+    for cn in ('SpatialVelocity', 'SpatialForce'):
+        Cc = getattr(sm, cn)
+        x, y = np.array([1.0, 2, 3, 4, 5, 6]), np.array([0.5, -1, 2, 0.1, 0.2, -0.3])
+        cid = 'C20/seq/%s' % cn
+        if not ctx.want(cid):
+            continue
+        ctx.case(cid, key=cid)
+        X, Y = Cc(x.copy()), Cc(y.copy())
+        ok, r = call(lambda: ((X + Y).A.copy(), (X - Y).A.copy(), (-X).A.copy(), (X + Y).A.copy(), X.A.copy(), Y.A.copy()))
+        P = dict(op='sequence', lcls=cn, rcls=cn)
+        if not ok:
+            ctx.fail(cid, 'SpatialVector.__add__', 'raises:' + type(r).__name__, P, '%r' % (r,))
+        else:
+            for got, w, nm in zip(r, (x + y, x - y, -x, x + y, x, y), ('X+Y', 'X-Y', '-X', 'X+Y again', 'X itself', 'Y itself')):
+                if not np.array_equal(np.asarray(got), w):
+                    ctx.fail(cid, 'SpatialVector.__add__', 'mismatch', dict(P, what=nm), '%s is %s, expected %s' % (nm, np.asarray(got).tolist(), w.tolist()))
+                    break
+
+
 def shards(tier, seed):
-    out = []
+    out = [('sequences',)]
     for lcls in CLS:
         for opn in ('add', 'sub'):
             out.append(('arith', lcls, opn))
@@ -990,5 +1037,7 @@ def run_shard(ctx, shard):
         run_rmul(ctx, shard[1], shard[2], shard[3], tier, seed)
     elif kind == 'info':
         run_info(ctx, tier, seed)
+    elif kind == 'sequences':
+        run_sequences(ctx, tier, seed)
     else:
         raise HarnessError('unknown shard %r' % (shard,))
